@@ -339,7 +339,7 @@ deriving DecidableEq, Repr
 inductive Field where
   | leaf (name : String) (l : Leaf)
   | embed (name : String) (ls : List (String × Leaf))   -- anonymous struct field (one level)
-deriving Repr
+deriving DecidableEq, Repr
 
 abbrev Layout := List Field
 
